@@ -37,8 +37,9 @@ async def run_exchange(sc, client=None, agent=None):
                         clock=lambda: sc.get("now", 50000))
     if agent is None:
         ag.mib.set(inst, enc_str(b"x" * pad))
-    real_time = _t.time
-    _t.time = lambda: sc.get("now", 50000)
+    import puresnmp.api.raw, puresnmp_plugins.security.usm  # noqa
+    _clk = patched_clock(lambda: sc.get("now", 50000))
+    _clk.__enter__()
     sent = []
     rec = {}
 
@@ -103,7 +104,7 @@ async def run_exchange(sc, client=None, agent=None):
         except Exception as e:  # noqa
             ret = dict(kind="exc", cls=exc_name(e), match=False)
     finally:
-        _t.time = real_time
+        _clk.__exit__(None, None, None)
     # the first data request of this operation as the agent saw it
     reqs = [r for r in ag.log[nlog:] if r.get("engine") == engine]
     ev = dict(e="xchg", op=op, level=sc["level"], ret=ret, nreq=len(reqs))
